@@ -139,6 +139,100 @@ def run(ck, F):
                     bad.append(None)
         bad = [b for b in bad if b]
         ck.check(R3, f['id'], not bad, f'{f["id"]} holds constant(s) {bad} that reach the stream as control bytes', loc=f['loc'], fn=f['id'])
+    # unformatted output with an explicit extent: write(buffer, n) / put(c) on the stream or its buffer
+    R5 = ck.rule('C18.explicit-extent-writes', 'an unformatted write of the printer (ostream::write / put, streambuf::sputn / sputc) takes its '
+                 'bytes from a whole character view (data() and size() of the same object: a spelling of the graph) or from a constant '
+                 'whose bytes up to the largest extent the call can ask for are printable: no terminating NUL or control byte reaches the '
+                 'stream through an extent that is too large', floor=150)
+    gl = {g['q']: g for g in F.globals}
+
+    def strip_all(e):
+        # here every cast is transparent: array-to-pointer decay, integral widening of an extent, reads
+        while isinstance(e, dict) and e.get('k') == 'cast' and 'e' in e and e.get('explicit') != 'reinterpret':
+            e = e['e']
+        return e
+
+    def const_bytes(e):
+        """bytes of a constant character array an expression designates (with its terminating NUL), or None"""
+        e = strip_all(e)
+        if e.get('k') == 'lit' and e.get('lt') == 'str':
+            return list(e.get('bytes', [])) + [0]
+        if e.get('k') == 'ref' and e.get('kind') == 'global':
+            g = gl.get(e.get('q'))
+            if g is not None and g.get('const') and 'init' in g:
+                lits = [m for m in walk(g['init']) if m.get('k') == 'lit' and m.get('lt') == 'str']
+                if len(lits) == 1:
+                    return list(lits[0].get('bytes', [])) + [0]
+        if e.get('k') in ('addr', 'unop') and e.get('op') in (None, '&') and 'e' in e:
+            inner = strip_all(e['e'])
+            if inner.get('k') == 'index':
+                base = const_bytes(inner.get('base') or inner.get('e') or {})
+                idx = strip_all(inner.get('idx') or inner.get('i') or {})
+                if base is not None and str(idx.get('cv')) == '0':
+                    return base
+        return None
+
+    def upper(e):
+        """largest value an extent expression can take, when the expression says so (a constant, min with a constant)"""
+        e0 = e
+        e = strip_all(e)
+        for x in (e0, e):
+            if 'cv' in x:
+                try:
+                    return int(x['cv'])
+                except (TypeError, ValueError):
+                    pass
+        if e.get('k') == 'call' and (e.get('callee') or {}).get('name') == 'min' and (e['callee'].get('q') or '').startswith('std::min'):
+            bs = [upper(a) for a in e.get('args', [])[:2]]
+            bs = [b for b in bs if b is not None]
+            return min(bs) if bs else None
+        if e.get('k') == 'cond':
+            a, b = upper(e.get('then') or {}), upper(e.get('else') or {})
+            return max(a, b) if a is not None and b is not None else None
+        return None
+
+    def whole_view(buf, n):
+        b, m = strip_all(buf), strip_all(n)
+        if b.get('k') == 'call' and m.get('k') == 'call' and (b.get('callee') or {}).get('name') in ('data', 'begin', 'c_str') \
+                and (m.get('callee') or {}).get('name') in ('size', 'length'):
+            rb, rm = b.get('recv') or b.get('this'), m.get('recv') or m.get('this')
+            return rb is not None and strip_all(rb) == strip_all(rm)
+        return False
+    for f in sorted(pf, key=lambda f: f['id']):
+        bad = []
+        for n in walk(f.get('body')):
+            if n.get('k') != 'call':
+                continue
+            c = n.get('callee') or {}
+            par = c.get('parent') or ''
+            if not (c.get('name') in ('write', 'put', 'sputn', 'sputc') and par.startswith(('std::basic_ostream<', 'std::basic_streambuf<', 'std::ostream', 'std::streambuf'))):
+                continue
+            a = n.get('args', [])
+            if c['name'] in ('put', 'sputc'):
+                x = upper(a[0]) if a else None
+                if x is None:
+                    raise AnalysisBroken(f'{f["id"]}: {c["name"]} of a byte that is not a constant (line {n.get("ln")})')
+                if (x < 0x20 and x != 0x0a) or x >= 0x7f:
+                    bad.append(f'{c["name"]}({x}) at line {n.get("ln")}')
+                continue
+            if len(a) != 2:
+                raise AnalysisBroken(f'{f["id"]}: {c["name"]} with {len(a)} arguments')
+            if whole_view(a[0], a[1]):
+                continue
+            cb = const_bytes(a[0])
+            ub = upper(a[1])
+            if cb is None or ub is None:
+                raise AnalysisBroken(f'{f["id"]}: unformatted {c["name"]} at line {n.get("ln")} whose buffer is not a constant / whole view, or '
+                                     'whose extent has no constant upper bound: outside the recognised forms')
+            if ub > len(cb):
+                bad.append(f'{c["name"]} of up to {ub} bytes from a constant of {len(cb) - 1} characters (line {n.get("ln")}): reads past the constant')
+            else:
+                ctl = [x for x in cb[:ub] if (x < 0x20 and x != 0x0a) or x >= 0x7f]
+                if ctl:
+                    bad.append(f'{c["name"]} of up to {ub} bytes from a constant of {len(cb) - 1} characters (line {n.get("ln")}): the bytes '
+                               f'{sorted(set(ctl))} (terminating NUL included) reach the stream')
+        ck.check(R5, f['id'], not bad, f'{f["id"]}: ' + '; '.join(bad), loc=f['loc'], fn=f['id'])
+
     # static tables of the printer
     for g in F.globals:
         if g['loc'].split(':')[0] in PRINTER_FILES and 'init' in g:
